@@ -2,8 +2,8 @@
    refinement of the BigN evaluator used by the correspondence runs. *)
 From Coq Require Import List NArith ZArith Arith Bool Lia ZifyN ZifyNat ZifyBool.
 From Bignums Require Import BigN.
-From AHK Require Import Lib.Res Lib.ByteStr Model.Sha512 Model.Srp Model.SrpCases Model.SrpBig
-  Proofs.Sha512 Proofs.SrpBytes Proofs.Srp.
+From AHK Require Import Lib.Res Lib.ByteStr Model.Sha512 Model.Srp Model.SrpServer Model.SrpCases Model.SrpBig
+  Proofs.Sha512 Proofs.SrpBytes Proofs.Srp Proofs.SrpServer.
 Import ListNotations.
 Local Open Scope Z_scope.
 
@@ -94,6 +94,24 @@ Proof.
   intros E I P salt b A_b M1_b. unfold server_x. cbv zeta. rewrite !E. reflexivity.
 Qed.
 
+Lemma srpserver_ext H PM1 PM2 Nm g kc hgroup L PL :
+  (forall b e, PM1 b e Nm = PM2 b e Nm) ->
+  forall guard I P salt b pub M1_b,
+    srpserver H PM1 Nm g kc hgroup L PL guard I P salt b pub M1_b =
+    srpserver H PM2 Nm g kc hgroup L PL guard I P salt b pub M1_b.
+Proof.
+  intros E guard I P salt b pub M1_b. unfold srpserver. rewrite !E.
+  destruct (padded _ L) as [B_b| | |]; cbn [rbind]; try reflexivity.
+  destruct pub as [A|A_b].
+  - destruct (padded A L) as [A_b| | |]; cbn [rbind]; try reflexivity.
+    destruct (guard && (A mod Nm =? 0)); [reflexivity|]. rewrite !E. reflexivity.
+  - cbn [rbind]. destruct (guard && (from_bytes A_b mod Nm =? 0)); [reflexivity|]. rewrite !E. reflexivity.
+Qed.
+
+Lemma hap_srpserver_fast guard I P salt b pub M1_b :
+  hap_srpserver powm_fast guard I P salt b pub M1_b = hap_srpserver powm guard I P salt b pub M1_b.
+Proof. apply srpserver_ext. intros x e. apply powm_fast_eq. exact N3072_pos. Qed.
+
 (* what the correspondence evaluates is what the theorems are about *)
 Lemma hap_client_fast I P a salt B_b :
   hap_client powm_fast I P a salt B_b = hap_client powm I P a salt B_b.
@@ -138,6 +156,33 @@ Lemma toy_exchange_ok :
   1 < 2027 /\ Z.gcd 2 2027 = 1 /\ (Z.to_N 2027 <= P256 2)%N /\
   length (0 :: 0 :: repeat 7 14)%N = 16%nat /\ all_bytes (0 :: 0 :: repeat 7 14)%N = true.
 Proof. vm_compute. repeat split; try reflexivity; discriminate. Qed.
+
+(* toy instance for the SrpServer theorems: the honest client is accepted by both variants; the
+   zero-key message is accepted without the guard and rejected (Err) with it *)
+Definition toy_srpserver_check : bool :=
+  let Nm := 2027 in
+  let g := 2 in
+  let kc := spec_k toyH Nm g 2 in
+  let hg := spec_hgroup toyH Nm g 2 in
+  let I := (80 :: 97 :: 105 :: 114 :: nil)%N in
+  let P := (49 :: 50 :: 51 :: nil)%N in
+  let salt := (0 :: 0 :: repeat 7 14)%N in
+  let b := 13 in
+  let B_b := sv_public toyH Nm g 2 I P salt b in
+  let forged := toyH (hg ++ toyH I ++ salt ++ PAD 2 0 ++ B_b ++ toyH (PAD 2 0)) in
+  let srv := srpserver toyH powm Nm g kc hg 2 1 in
+  match client toyH powm Nm g kc hg 2 16 I P 77 salt B_b with
+  | Ok r =>
+      match srv true I P salt b (inr (r_A_b r)) (r_M1 r), srv false I P salt b (inr (PAD 2 0)) forged,
+            srv true I P salt b (inr (PAD 2 0)) forged with
+      | Ok q, Ok z, Err _ => p_ok q && beq (p_K q) (r_K r) && cl_accepts r (p_M2 q) && p_ok z && (p_S z =? 0)
+      | _, _, _ => false
+      end
+  | _ => false
+  end.
+
+Lemma toy_srpserver_ok : toy_srpserver_check = true.
+Proof. vm_compute. reflexivity. Qed.
 
 (* the input-decoding glue of the case files agrees with [bytes_of] (samples) *)
 Example bytes_of_fast_samples :
